@@ -77,6 +77,51 @@ func find(m *metrics.Metric, t []string) *metrics.LabelValue {
 	return r
 }
 
+// gcScenario: expiry marks and garbage collection of one tuple never touch the other.
+func gcScenario(a, b []string) string {
+	if teq(a, b) {
+		return ""
+	}
+	st := metrics.NewStore()
+	m := metrics.NewMetric("m", "p", metrics.Gauge, metrics.Int, keys(len(a))...)
+	if err := st.Add(m); err != nil {
+		return "add: " + err.Error()
+	}
+	now := time.Now()
+	da, _ := m.GetDatum(a...)
+	db, _ := m.GetDatum(b...)
+	datum.SetInt(da, 1, now)
+	datum.SetInt(db, 2, now)
+	// only B carries a (far-away) expiry
+	if err := m.ExpireDatum(168*time.Hour, b...); err != nil {
+		return "expire B: " + err.Error()
+	}
+	if err := st.Gc(); err != nil {
+		return "gc: " + err.Error()
+	}
+	if la, lb := find(m, a), find(m, b); la == nil || lb == nil || la.Value != da || lb.Value != db || m.FindLabelValueOrNil(a) == nil || m.FindLabelValueOrNil(b) == nil {
+		return "a collection removed a tuple although A has no expiry and B was updated just now with a 168h expiry"
+	}
+	// A becomes overdue, B is not
+	if err := m.ExpireDatum(time.Hour, a...); err != nil {
+		return "expire A: " + err.Error()
+	}
+	datum.SetInt(da, 1, now.Add(-2*time.Hour))
+	if err := st.Gc(); err != nil {
+		return "gc: " + err.Error()
+	}
+	if find(m, a) != nil || m.FindLabelValueOrNil(a) != nil {
+		return "A (1h expiry, last update 2h ago) survived the collection"
+	}
+	if lb := find(m, b); lb == nil || lb.Value != db || datum.GetInt(db) != 2 || lb.Expiry != 168*time.Hour || m.FindLabelValueOrNil(b) != lb {
+		return "collecting the overdue A touched B"
+	}
+	if s := m.VerifConsistent(); s != "" {
+		return "slice/index inconsistent after collection: " + s
+	}
+	return ""
+}
+
 // pairScenario exercises create/find/write/expire/delete of A while observing B.
 func pairScenario(a, b []string) string {
 	m := metrics.NewMetric("m", "p", metrics.Gauge, metrics.Int, keys(len(a))...)
@@ -229,6 +274,9 @@ func main() {
 			a := tl[i]
 			for _, b := range tl {
 				msg := pairScenario(a, b)
+				if msg == "" {
+					msg = gcScenario(a, b)
+				}
 				if teq(a, b) {
 					c.Eval("")
 				} else {
@@ -262,5 +310,5 @@ func main() {
 		c.Sample(map[string]interface{}{"arity": arity, "bulk_tuples": len(tl)})
 	}
 	c.Set("alphabet", `a - \ 0xFF`)
-	c.Finish("all ordered pairs of tuples (arity 1-2) of all strings up to the length bound over {a,-,\\,0xFF}: create/find/write/expire/delete A while observing B; arity 3-4: all tuples in one metric with ordinals. distinct_nontrivial = ordered pairs of unequal tuples")
+	c.Finish("all ordered pairs of tuples (arity 1-2) of all strings up to the length bound over {a,-,\\,0xFF}: create/find/write/expire/delete A while observing B, then on a fresh store a garbage collection with only B marked and one with A overdue; arity 3-4: all tuples in one metric with ordinals. distinct_nontrivial = ordered pairs of unequal tuples")
 }
